@@ -1,5 +1,5 @@
-(* C10: witnesses of the recorded findings and non-vacuity examples (all by evaluation). *)
-From TT Require Import Base.Prelude Base.SrtTypes Gen.SrtTables Model.SrtReader Spec.SrtCueSpec.
+(* C10: the witnesses of the repaired findings and non-vacuity examples (all by evaluation). *)
+From TT Require Import Base.Prelude Base.SrtTypes Gen.SrtTables Model.SrtReader Spec.SrtCueSpec Spec.SrtWriterOut.
 From Coq Require Import QArith.
 Local Open Scope Z_scope.
 
@@ -8,34 +8,31 @@ Definition k2 : clock := mkClock 0 false 0 2 500.
 Definition one_cue (p : list node) (crlf : bool) : file_src :=
   mkFile [] [mkCue [49] k1 [32] [32] k2 [] p [[]]] crlf true.
 
+(* the witnesses of the four findings that were recorded for C10 and have been repaired: each is now read as written,
+   through both kinds of stream *)
 (* {b}x{/b} *)
 Definition f_brace : file_src := one_cue [NTag KB BraceShort [NChar 120]] false.
-Lemma brace_short_refuted : exists f, wf_file f = true /\ trigger_brace_short f = true /\
-  read_cues (print_file f) <> Ok (cues f) /\ read_cues_file (print_file f) <> Ok (cues f).
-Proof. exists f_brace. vm_compute. repeat split; discriminate. Qed.
-
 (* a</b>c *)
 Definition f_stray : file_src := one_cue [NChar 97; NStray KB AngleShort; NChar 99] false.
-Lemma stray_end_refuted : exists f, wf_file f = true /\ trigger_stray_end f = true /\
-  read_cues (print_file f) = Raised ETypeError /\ read_cues_file (print_file f) = Raised ETypeError.
-Proof. exists f_stray. vm_compute. repeat split. Qed.
-(* <b>x</i>y</b> : the closer is not matched against the open element: y is not bold *)
+(* <b>x</i>y</b> : the closer does not name the open element and closes nothing: y is bold *)
 Definition f_mismatch : file_src := one_cue [NTag KB AngleShort [NChar 120; NStray KI AngleShort; NChar 121]] false.
-Lemma mismatched_end_refuted : wf_file f_mismatch = true /\ trigger_stray_end f_mismatch = true /\
-  read_cues (print_file f_mismatch) <> Ok (cues f_mismatch).
-Proof. vm_compute. repeat split; discriminate. Qed.
-
-(* C:\n\r  (backslash n backslash r) *)
+(* C:\n\rx  (backslash n backslash r) *)
 Definition f_backslash : file_src := one_cue [NChar 67; NChar 58; NChar 92; NChar 110; NChar 92; NChar 114; NChar 120] false.
-Lemma backslash_refuted : exists f, wf_file f = true /\ plain_file f = true /\ trigger_backslash f = true /\
-  read_cues (print_file f) <> Ok (cues f) /\ read_cues_file (print_file f) <> Ok (cues f).
-Proof. exists f_backslash. vm_compute. repeat split; discriminate. Qed.
-
 (* two lines, CR LF terminators, stream without newline translation *)
 Definition f_crlf2 : file_src := one_cue [NChar 97; NBreak; NChar 98] true.
-Lemma crlf_untranslated_refuted : exists f, wf_file f = true /\ plain_file f = true /\ trigger_crlf_untranslated f false = true /\
-  read_cues (print_file f) <> Ok (cues f) /\ read_cues_file (print_file f) = Ok (cues f).
-Proof. exists f_crlf2. vm_compute. repeat split; discriminate. Qed.
+
+Definition reads_ok (f : file_src) : Prop :=
+  wf_file f = true /\ read_cues (print_file f) = Ok (cues f) /\ read_cues_file (print_file f) = Ok (cues f).
+Lemma repaired_witnesses : reads_ok f_brace /\ reads_ok f_stray /\ reads_ok f_mismatch /\ reads_ok f_backslash /\ reads_ok f_crlf2 /\
+  cues f_brace = [(Qmake 1 1, Qmake 5 2, [Ch 120 (mkSt true false false None)])] /\
+  cues f_mismatch = [(Qmake 1 1, Qmake 5 2, [Ch 120 (mkSt true false false None); Ch 121 (mkSt true false false None)])] /\
+  cues f_crlf2 = [(Qmake 1 1, Qmake 5 2, [Ch 97 st0; Brk; Ch 98 st0])].
+Proof. vm_compute. repeat split. Qed.
+
+(* a closer that names the directly enclosing tag is not "a closer that closes nothing": the grammar excludes it *)
+Lemma ambiguous_stray_excluded :
+  wf_file (one_cue [NTag KB AngleShort [NChar 120; NStray KB AngleUpper; NChar 121]] false) = false.
+Proof. vm_compute. reflexivity. Qed.
 
 (* the exactness clause was false of the code before the fix: 0.28 is not 7/25; now the value is the rational *)
 Lemma example_280 : read_cues (print_file (mkFile [] [mkCue [49] (mkClock 0 false 0 0 280) [32] [32] (mkClock 0 false 0 1 70) [] [NChar 120] [[]]] false true))
@@ -43,16 +40,16 @@ Lemma example_280 : read_cues (print_file (mkFile [] [mkCue [49] (mkClock 0 fals
 Proof. vm_compute. reflexivity. Qed.
 
 (* non-vacuity: a file with leading blank lines, odd counters, a three-digit hour, tabs around the arrow, nested and
-   adjacent tags over two lines, several blank lines between cues, CR LF terminators *)
+   adjacent tags in angle and brace syntax over two lines, closers that close nothing, several blank lines between cues,
+   CR LF terminators *)
 Definition f_example : file_src :=
   mkFile [[]; [32]]
     [mkCue [32;55;55] (mkClock 100 true 59 59 999) [9] [32;32] (mkClock 999 true 99 99 0) [32;88;49]
-       [NTag KB AngleShort [NChar 97; NTag KI AngleLong [NChar 98; NBreak; NChar 99]; NTag KU AngleUpper [NChar 100]]; NFont (CHex6 255 0 128 true) QBare [NChar 101; NFont (CNamed 15 false) QDouble [NChar 102]]; NTag KI BraceLong [NRef RAmp; NRef (RDec 8364)]; NChar 92; NChar 62] [[]; [9]; []];
+       [NTag KB AngleShort [NChar 97; NTag KI AngleLong [NChar 98; NBreak; NChar 99]; NTag KU AngleUpper [NChar 100]]; NFont (CHex6 255 0 128 true) QBare [NChar 101; NFont (CNamed 15 false) QDouble [NChar 102]]; NTag KI BraceLong [NRef RAmp; NStray KB BraceShort; NRef (RDec 8364)]; NStray KU AngleLong; NChar 92; NChar 62] [[]; [9]; []];
      mkCue [35;50] k1 [32] [32] k2 [] [NChar 8364; NBreak; NChar 120] []]
     true true.
-Lemma example_ok : wf_file f_example = true /\ trigger_brace_short f_example = false /\ trigger_stray_end f_example = false /\
-  trigger_backslash f_example = false /\
-  read_cues_file (print_file f_example) = Ok (cues f_example) /\
+Lemma example_ok : wf_file f_example = true /\
+  read_cues_file (print_file f_example) = Ok (cues f_example) /\ read_cues (print_file f_example) = Ok (cues f_example) /\
   cues f_example = [(Qmake 363599999 1000, Qmake 3602439 1,
                      [Ch 97 (mkSt true false false None); Ch 98 (mkSt true true false None); Brk; Ch 99 (mkSt true true false None);
                       Ch 100 (mkSt true false true None); Ch 101 (mkSt false false false (Some (255, 0, 128, 255)));
@@ -60,3 +57,27 @@ Lemma example_ok : wf_file f_example = true /\ trigger_brace_short f_example = f
                       Ch 92 st0; Ch 62 st0]);
                     (Qmake 1 1, Qmake 5 2, [Ch 8364 st0; Brk; Ch 120 st0])].
 Proof. vm_compute. repeat split. Qed.
+
+(* ------------------------------------------------------------------ outputs of the SRT writer *)
+(* two cues as the writer emits them: nested font / b / i / u tags over two lines, a three-digit hour *)
+Definition w_example : list wcue :=
+  [mkW [49] 1000 2500 [WFont 255 0 0 255 [WBold [WChar 97; WItalic [WChar 98]]; WBreak; WUnder [WChar 99]]; WChar 33];
+   mkW [50] 359999999 360000001 [WChar 120; WBreak; WChar 121]].
+Lemma writer_example : wwf w_example = true /\ trigger_hours_1000 w_example = false /\
+  wprint w_example =
+    [49;10; 48;48;58;48;48;58;48;49;44;48;48;48; 32;45;45;62;32; 48;48;58;48;48;58;48;50;44;53;48;48; 10;
+     60;102;111;110;116;32;99;111;108;111;114;61;34;35;102;102;48;48;48;48;102;102;34;62; 60;98;62; 97; 60;105;62; 98; 60;47;105;62; 60;47;98;62; 10;
+     60;117;62; 99; 60;47;117;62; 60;47;102;111;110;116;62; 33; 10; 10;
+     50;10; 57;57;58;53;57;58;53;57;44;57;57;57; 32;45;45;62;32; 49;48;48;58;48;48;58;48;48;44;48;48;49; 10; 120;10;121;10] /\
+  read_cues (wprint w_example) = Ok (map wmeaning w_example) /\
+  map wmeaning w_example =
+    [(Qmake 1 1, Qmake 5 2, [Ch 97 (mkSt true false false (Some (255, 0, 0, 255))); Ch 98 (mkSt true true false (Some (255, 0, 0, 255))); Brk;
+                              Ch 99 (mkSt false false true (Some (255, 0, 0, 255))); Ch 33 st0]);
+     (Qmake 359999999 1000, Qmake 360000001 1000, [Ch 120 st0; Brk; Ch 121 st0])].
+Proof. vm_compute. repeat split. Qed.
+
+(* recorded finding hours-beyond-999-rejected: 999:59:59,000 --> 1000:00:00,000 as the writer prints it is not read *)
+Definition w_hours : list wcue := [mkW [49] 3599999000 3600000000 [WChar 120]].
+Lemma writer_hours_refuted : exists cs, wwf cs = true /\ trigger_hours_1000 cs = true /\
+  read_cues (wprint cs) = RetNone /\ read_cues_file (wprint cs) = RetNone.
+Proof. exists w_hours. vm_compute. repeat split. Qed.
